@@ -540,8 +540,15 @@ class ResourceScenario(ScenarioData):
         # Working hours are defined in local time, but slots are in UTC
         resource_tz = self.property.get("timezone", self.scenarioIdx)
 
-        # Check if resource has a shift reference
+        # Check if resource has a shift reference. A shift that is merely inherited from an
+        # enclosing group does not override working hours the resource declares itself.
         shift = self.property.get("shifts", self.scenarioIdx)
+        if (
+            shift
+            and self.property.inherited("shifts", self.scenarioIdx)
+            and self.property.provided("workinghours", self.scenarioIdx)
+        ):
+            shift = None
         if shift:
             # Use the shift's working hours
             shift_wh = shift.get("workinghours", self.scenarioIdx)
